@@ -292,6 +292,9 @@ def c07_family(V, cfg, mk_uni, start_scanned, tag):
             return {"op": "imported", "path": p}
         if t == "close":
             return {"op": "close", "path": p}
+        if t == "open":
+            # didOpen of an unmodified document: the text on disk handed to analyze_file
+            return {"op": "analyze", "path": p, "text": disk_r[ev["f"]].text}
         if t == "evict":
             return {"op": "evict", "paths": [p]}
         raise C.ToolError("unknown event %r" % ev)
